@@ -343,7 +343,10 @@ class FileManager:
             manifest_data = json.loads(content.decode("utf-8"))
 
             data_files = []
-            for file_entry in manifest_data.get("files", []):
+            # A legacy JSON manifest always carries its "files" list. Any other JSON
+            # document (e.g. a file overwritten with "{}") is not a manifest: reading
+            # it as an empty one would silently drop rows and let GC delete live files.
+            for file_entry in manifest_data["files"]:
                 data_file = DataFile(
                     file_path=file_entry["file_path"],
                     file_format=FileFormat(file_entry["file_format"]),
@@ -457,7 +460,8 @@ class FileManager:
             list_data = json.loads(content.decode("utf-8"))
 
             manifest_files = []
-            for manifest_entry in list_data.get("manifests", []):
+            # Same rule as for manifests: no "manifests" list, no manifest list.
+            for manifest_entry in list_data["manifests"]:
                 manifest_file = ManifestFile(
                     manifest_path=manifest_entry["manifest_path"],
                     manifest_length=manifest_entry["manifest_length"],
